@@ -289,19 +289,25 @@ pub struct Matrix {
     /// executions per (subject kind) and per (operand kind or int type), for the evidence file
     pub by_kind: HashMap<&'static str, u64>,
     pub by_op: HashMap<&'static str, u64>,
+    /// drive every preparation of the subject kind in every case (not only in operand-less cases)
+    pub all_preps: bool,
 }
 
 impl Matrix {
     pub fn new(dbg: bool, ny: usize) -> Matrix {
-        Matrix { dbg, rot: 0, ny, execs: 0, prep_fallbacks: 0, events: 0, by_kind: HashMap::new(), by_op: HashMap::new() }
+        Matrix { dbg, rot: 0, ny, execs: 0, prep_fallbacks: 0, events: 0, by_kind: HashMap::new(), by_op: HashMap::new(), all_preps: false }
     }
 
-    fn prep_for(&mut self, kind: Kind, salt: usize) -> Prep {
-        let cands: &[Prep] = match kind {
+    fn prep_cands(kind: Kind) -> &'static [Prep] {
+        match kind {
             Kind::A => &[Prep::Fresh, Prep::Heap, Prep::Spare, Prep::Shrunk, Prep::Pushed, Prep::Reserved, Prep::Popped, Prep::Conv(Kind::D), Prep::Masked, Prep::Summed],
             Kind::D => &[Prep::Fresh, Prep::Spare, Prep::Shrunk, Prep::Reserved, Prep::Pushed, Prep::Popped, Prep::Conv(Kind::F64x4), Prep::Masked, Prep::Summed],
             _ => &[Prep::Fresh, Prep::Shrunk, Prep::Pushed, Prep::Popped, Prep::Conv(Kind::D), Prep::Masked, Prep::Conv(Kind::F8x3), Prep::Summed],
-        };
+        }
+    }
+
+    fn prep_for(&mut self, kind: Kind, salt: usize) -> Prep {
+        let cands = Self::prep_cands(kind);
         cands[(self.rot / 3 + salt) % cands.len()]
     }
 
@@ -324,7 +330,16 @@ impl Matrix {
             if !ctor && !kx.admits(case.x.len()) {
                 continue;
             }
-            let prepx = if ctor { Prep::Fresh } else { self.prep_for(kx, xi) };
+            // subjects without a vector operand are cheap: every preparation of the kind is driven;
+            // with a vector operand one preparation per case, rotating
+            let unary = matches!(case.y, YSpec::None | YSpec::Target(_));
+            let prepxs: Vec<Prep> = if ctor {
+                vec![Prep::Fresh]
+            } else if unary || self.all_preps {
+                Self::prep_cands(kx).to_vec()
+            } else {
+                vec![self.prep_for(kx, xi)]
+            };
             // operand choices
             let ys: Vec<(Option<Kind>, Prep)> = match &case.y {
                 YSpec::Bits(yb) => {
@@ -347,12 +362,16 @@ impl Matrix {
                 }
                 _ => vec![(None, Prep::Fresh)],
             };
+            for prepx in prepxs {
             let (x0, okx) = make(kx, &case.x, prepx);
             if !okx {
                 self.prep_fallbacks += 1;
+                if prepx != Prep::Fresh && (unary || self.all_preps) {
+                    continue; // the fresh construction is one of the candidates already
+                }
             }
             let pre = observe(&x0);
-            for (ky, prepy) in ys {
+            for (ky, prepy) in ys.iter().cloned() {
                 let (yv0, oky) = match &case.y {
                     YSpec::None | YSpec::Target(_) => (Y::None, true),
                     YSpec::Int(t, v) => (Y::Int(*t, *v), true),
@@ -419,6 +438,7 @@ impl Matrix {
                                     pr: json!(prv.iter().map(|p| p.to_json()).collect::<Vec<_>>()) };
                     groups.push((key, rep, 1));
                 }
+            }
             }
         }
         self.events += groups.len() as u64;
